@@ -241,7 +241,16 @@ def parse_item(item, added_key, added, drawn, rm=None):
     elif t == "replace_string":
         ts = ("replace", item["regex"], item["replacement"])
     elif t == "convert_type":
-        ts = ("convertstr",)
+        ts = ("convertstr",) if item.get("target_type") == "str" else ("convertnum",)
+    elif t == "regex":
+        ts = ("regex", item.get("method", "ignore_case_brackets"))
+    elif t == "query_expression_placeholders":
+        ts = ("queryph", item.get("include"), item.get("exclude"), item.get("expression", ""), dict(item.get("mapping", {})))
+    elif t == "hashes_fields":
+        ts = ("hashes", list(item["valid_hash_algos"]), item.get("field_prefix", ""), bool(item.get("drop_algo_prefix", False)),
+              list(item.get("field_to_parse", ["Hashes", "Hash"])))
+    elif t == "extract_fields":
+        ts = ("extract", item["regex"], item.get("field_prefix") or None, bool(item.get("preserve_unmatched", False)))
     elif t == "wildcard_placeholders":
         ts = ("wildph", item.get("include"), item.get("exclude"))
     elif t == "value_placeholders":
@@ -371,6 +380,45 @@ def tv(ts, vars_, f, v):
         if v[0] == "exp":
             return [["exp", [["str", False, sparse(x[1])] if x[0] == "num" else x for x in v[1]]]]
         return None
+    if k == "regex":
+        if v[0] != "str":
+            return None
+        if not v[2]:
+            return [v]            # the empty string stays a string
+        out = ""
+        for p in v[2]:
+            if p[0] == "s":
+                out += "".join("[%s%s]" % (c.lower(), c.upper()) if (ts[1] == "ignore_case_brackets" and c.isalpha()) else re.escape(c)
+                               for c in p[1])
+            elif p[0] == "m":
+                out += ".*"
+            elif p[0] == "q":
+                out += "."
+            else:
+                raise Unspellable("placeholder in regex transformation")
+        return [["re", out, "i" if ts[1] == "ignore_case_flag" else ""]]
+    if k == "convertnum":
+        def num(x):
+            if x[0] != "str":
+                return x
+            n = py_number(plain_of(x[2]))
+            if n is None:
+                raise Unspellable("not a number")
+            return ["num", n]
+        if v[0] == "str":
+            return [num(v)]
+        if v[0] == "exp":
+            return [["exp", [num(x) for x in v[1]]]]
+        return None
+    if k == "queryph":
+        if v[0] != "str" or not has_ph(v[2]):
+            return None
+        if len(v[2]) != 1:
+            raise Unspellable("placeholder among other parts")
+        n = v[2][0][1]
+        inc, exc = ts[1], ts[2]
+        handled = (inc is None and exc is None) or (inc is not None and n in inc) or (exc is not None and n not in exc)
+        return [["query", ts[3], ts[4].get(n) or n]] if handled else None
     if k in ("wildph", "valueph"):
         if v[0] != "str":
             return None
@@ -390,6 +438,94 @@ def tv(ts, vars_, f, v):
     return None
 
 
+def py_number(s):
+    """SigmaNumber(s) for a string s, printed (None: rejected)"""
+    import math
+    try:
+        f = float(s)
+        if not math.isfinite(f):
+            return None
+        i = int(s)
+        return str(i) if i == f else str(f)
+    except (ValueError, OverflowError):
+        return None
+
+
+def py_capture_number(s):
+    """extract_fields: int(s), else float(s), printed as SigmaNumber prints it (None: stays a string)"""
+    import math
+    try:
+        return str(int(s))
+    except ValueError:
+        pass
+    try:
+        f = float(s)
+    except ValueError:
+        return None
+    if not math.isfinite(f):
+        raise Unspellable("captured text is not a finite number")
+    return str(int(f)) if int(f) == f else str(f)
+
+
+HASH_LENGTHS = {32: "MD5", 40: "SHA1", 64: "SHA256", 128: "SHA512"}
+
+
+def hash_field_value(ts, plain):
+    """documented reading of one hash value: ALGO=hash or ALGO|hash (wildcards around it dropped), or a bare
+    hash whose length tells the algorithm; -> (target field, hash) or None when the algorithm is not valid"""
+    parts = plain.split("|") if "|" in plain else plain.split("=")
+    if len(parts) == 2:
+        algo, hv = parts[0].lstrip("*").upper(), parts[1].strip("*?")
+    else:
+        hv = parts[0].strip("*?")
+        algo = HASH_LENGTHS.get(len(hv), "")
+    if algo == "" or algo not in ts[1]:
+        return None
+    return ts[2] + ("" if ts[3] else algo), hv
+
+
+def rw_hashes(ts, it):
+    if it["f"] is None or it["f"] not in ts[4] or not all(v[0] == "str" for v in it["vs"]):
+        return ["E", it], False
+    pairs = [x for x in (hash_field_value(ts, plain_of(v[2])) for v in it["vs"]) if x is not None]
+    fields = list(dict.fromkeys(k for k, _ in pairs))          # in the order of their first occurrence
+    es = [E(None if k == "keyword" else k, [["str", False, sparse(h)] for kk, h in pairs if kk == k], it["all"], False)
+          for k in fields if k != ""]
+    d = ["All" if it["all"] else "Any", es]
+    return (["Neg", d] if it["neg"] else d), True
+
+
+def rw_extract(ts, it):
+    if not all(v[0] == "str" for v in it["vs"]):
+        return ["E", it], False
+    rx = re.compile(ts[1])
+    docs = []
+    for v in it["vs"]:
+        m = rx.match(plain_of(v[2]))
+        if not m:
+            if ts[3]:
+                docs.append(E(it["f"], [v], False, False))
+            continue
+        es = []
+        for g, gv in m.groupdict().items():
+            if gv is None or gv == "":
+                continue
+            if gv.lower() in ("null", "none"):
+                val = ["null"]
+            elif gv != "0" and gv.startswith("0"):
+                val = ["str", False, sparse(gv)]
+            else:
+                n = py_capture_number(gv)
+                val = ["num", n] if n is not None else ["str", False, sparse(gv)]
+            es.append(E((ts[2] + "." + g) if ts[2] else g, [val], False, False))
+        if es:
+            docs.append(["All", es])
+    if not docs:
+        return ["E", it], False
+    d = docs[0] if len(docs) == 1 else ["All" if it["all"] else "Any", docs]
+    return (["Neg", d] if it["neg"] else d), True
+
+
 def rw_entry(conds, ts, vars_, it):
     """-> doc | None (entry removed); a touched entry's fragment is marked with the item's identifier"""
     if not im(conds, it):
@@ -404,6 +540,9 @@ def rw_entry(conds, ts, vars_, it):
         return None
     if ts[0] in ("addcond", "noop"):
         return ["E", it]
+    if ts[0] in ("hashes", "extract"):
+        d, touched = (rw_hashes if ts[0] == "hashes" else rw_extract)(ts, it)
+        return mark_doc(conds["id"], d) if touched else d
     rs = [tv(ts, vars_, it["f"], v) for v in it["vs"]]
     d = E(it["f"], [x for v, r in zip(it["vs"], rs) for x in ([v] if r is None else r)], it["all"], it["neg"], it.get("ap", ()))
     return mark_doc(conds["id"], d) if any(r is not None for r in rs) else d
@@ -605,6 +744,12 @@ def spell_atom(f, v):
         mods, val = ["exists"], v[2] == "true"
     elif k == "other" and v[1] == "tspart":
         mods, val = [v[2]], int(v[3])
+    elif k == "query":
+        # a query expression cannot be written in a rule document: the entry is spelled with a marker value, the
+        # atom it converts to stands for the text expression.format(field, id) (see c_query)
+        if f is None or not re.fullmatch(r"\w+", f) or re.search(r"[\s()=]", v[1].format(field=f, id=v[2])):
+            raise Unspellable("query expression")
+        val = "qx-" + "".join("%02x" % b for b in json.dumps([f, v[1], v[2]]).encode())
     else:
         raise Unspellable(k + ":" + str(v[1:2]))
     if f is not None and (f == "" or "|" in f):
@@ -631,7 +776,10 @@ def spell_rule(e):
                 n = "a%d" % len(ids)
                 ids[key] = n
                 dets[n] = spell_atom(x[1], x[2])
-                atoms[n] = [x[1], [x[2]]]
+                if x[2][0] == "query":
+                    atoms[n] = [x[1], [["str", False, [["s", dets[n][x[1]]]]]]]
+                else:
+                    atoms[n] = [x[1], [x[2]]]
             return ids[key]
         if x[0] == "not":
             return "not (" + go(x[1]) + ")"
@@ -946,6 +1094,163 @@ def gen_dependent_chain(rng, rule):
     return items
 
 
+HASH_VALUES = ["MD5=a1", "SHA1=b2", "MD5=c3", "SHA256=dd", "SHA1=ee", "IMPHASH=zz", "md5|ff", "*SHA1=Q7?", "MD5=a=b", "SHA1=b*c",
+               "0123456789abcdef0123456789abcdef", "*0123456789abcdef0123456789abcdef01234567*", "sha256=X", "MD5=", "plainword"]
+
+
+def gen_hashes_case(rng):
+    """Hashes items with several hashes per algorithm in every interleaving, unknown algorithms, contains / all /
+    negation, scopes; valid_hash_algos, field_prefix, drop_algo_prefix, field_to_parse variations"""
+    custom = rng.random() < 0.15
+    hf = "md5" if custom else rng.choice(["Hashes", "Hashes", "Hash"])
+    mod = rng.choice(["", "", "|contains", "|contains", "|contains|all", "|all", "|neq", "|contains|neq", "|endswith", "|cased"])
+    n = rng.choice([1, 2, 3, 3, 4, 5])
+    pool = rng.choice([HASH_VALUES[:5], HASH_VALUES[:5], HASH_VALUES[:8], HASH_VALUES])
+    vals = [rng.choice(pool) for _ in range(n)]
+    if rng.random() < 0.1 and mod in ("", "|all", "|neq"):
+        vals.append(5)                       # a non-string value: the item is left alone
+    det = {hf + mod: vals if len(vals) > 1 or rng.random() < 0.5 else vals[0]}
+    if rng.random() < 0.5:
+        k, v = c_gen_item(rng)
+        det[k] = v
+    dets = {"sel": det if rng.random() < 0.7 else [det, {"g": 1}]}
+    if rng.random() < 0.3:
+        dets["other"] = {"Hashes|contains": rng.sample(HASH_VALUES[:6], 2), "f": "x"}
+    names = list(dets)
+    expr = gen_expr(rng, names, rng.choice([0, 1, 1, 2]))
+    while not selectors_inhabited(expr, names):
+        expr = gen_expr(rng, names, 1)
+    it = {"type": "hashes_fields",
+          "valid_hash_algos": rng.choice([["MD5", "SHA1", "SHA256"], ["MD5", "SHA1", "SHA256"], ["MD5"], ["SHA1", "IMPHASH"], ["SHA256", "MD5"]]),
+          "field_prefix": rng.choice(["File", "File", "", "h.", "keyword"])}
+    if rng.random() < 0.25 and it["field_prefix"]:
+        it["drop_algo_prefix"] = True
+    if custom:
+        it["field_to_parse"] = ["md5", "Hashes"]
+    if rng.random() < 0.25:
+        it.update(gen_scope(rng))
+    items = [it]
+    r = rng.random()
+    if r < 0.2:      # followed by a transformation scoped to one of the new fields / to what hashes_fields touched
+        items.append(gen_second(rng, {"detection": dets}, {"field_name_conditions": [{"type": "include_fields", "fields": [it["field_prefix"] + "MD5"]}]}))
+    elif r < 0.3:
+        it["id"] = "H"
+        items.append(gen_second(rng, {"detection": dets}, {"detection_item_conditions": [{"type": "processing_item_applied", "processing_item_id": "H"}]}))
+    elif r < 0.4:
+        items.insert(0, {"type": "field_name_mapping", "mapping": {"f": "Hashes", "g": ["x", "y"]}})
+    return dets, expr, items
+
+
+def gen_regex_case(rng):
+    dets, expr, _ = gen_plain_rule(rng)
+    it = {"type": "regex"}
+    if rng.random() < 0.7:
+        it["method"] = rng.choice(["plain", "ignore_case_flag", "ignore_case_brackets"])
+    if rng.random() < 0.4:
+        it.update(gen_scope(rng))
+    return dets, expr, [it]
+
+
+def gen_plain_rule(rng):
+    names = rng.sample(NAMES, rng.randint(1, 2))
+    dets = {}
+    for nm in names:
+        d = {}
+        for _ in range(rng.choice([1, 2, 2, 3])):
+            f = rng.choice(C_FIELDS)
+            mod = rng.choice(["", "", "|contains", "|startswith", "|endswith", "|all", "|cased", "|neq", "|re", "|contains|all"])
+            pool = ["aB*c?d", "x.y", "a b", "A-z", "q\"r", "p«q", "", "(x)|[y]", "a\\\\b", "k#~&", "1+1=2", "Tab\there", 5, "$^{}"]
+            if mod == "|re":
+                v = rng.choice(["a.*b", "^x$"])
+            elif "all" in mod or rng.random() < 0.4:
+                v = [rng.choice([x for x in pool if x != ""]) for _ in range(rng.randint(2, 3))]
+            else:
+                v = rng.choice(pool)
+            d[f + mod] = v
+        dets[nm] = d if rng.random() < 0.8 else [d, {"h": "z"}]
+    expr = gen_expr(rng, names, rng.choice([0, 1, 2]))
+    while not selectors_inhabited(expr, names):
+        expr = gen_expr(rng, names, 1)
+    return dets, expr, None
+
+
+def gen_convertnum_case(rng):
+    nums = ["17", "-3", "0", "42", "007", "+5", " 8 ", "1_000"]
+    bad = ["1.5", "x", "1e3", "%x%"]
+    n = {"n" + rng.choice(["", "|all", "|neq", "|cased"]): [rng.choice(nums) for _ in range(rng.randint(1, 3))]}
+    if rng.random() < 0.12:
+        n[next(iter(n))].append(rng.choice(bad))     # the implementation rejects the rule
+    d = dict(n)
+    d["f"] = rng.choice(["x", 5, "a*"])
+    if rng.random() < 0.3:
+        d["n|windash"] = "-3"
+    dets = {"sel": d, "other": {"g": "12", "n": 3}}
+    names = list(dets)
+    expr = gen_expr(rng, names, rng.choice([0, 1, 2]))
+    while not selectors_inhabited(expr, names):
+        expr = gen_expr(rng, names, 1)
+    it = {"type": "convert_type", "target_type": "num"}
+    it["field_name_conditions"] = [{"type": "include_fields", "fields": rng.choice([["n"], ["n", "g"], ["n"]])}]
+    items = [it]
+    if rng.random() < 0.25:
+        items.append({"type": "convert_type", "target_type": "str"})
+    if rng.random() < 0.2:
+        items.insert(0, {"type": "map_string", "mapping": {"17": "18", "x": "99"}})
+    return dets, expr, items
+
+
+def gen_queryph_case(rng):
+    d = {"f|expand": rng.choice(["%x%", "%y%", ["%x%", "%y%"], ["%x%", "lit"]]), "g": rng.choice(["a", 1])}
+    if rng.random() < 0.3:
+        d["h|expand|neq"] = "%z%"
+    if rng.random() < 0.12:
+        d["h|expand"] = "a%x%"        # rejected: placeholder among other parts
+    dets = {"sel": d, "other": {"f|expand": "%z%"}}
+    names = list(dets)
+    expr = gen_expr(rng, names, rng.choice([0, 1, 2]))
+    while not selectors_inhabited(expr, names):
+        expr = gen_expr(rng, names, 1)
+    it = {"type": "query_expression_placeholders", "expression": rng.choice(["{field}@@{id}", "{id}<<{field}", "lookup:{id}:{field}"])}
+    if rng.random() < 0.6:
+        it["mapping"] = rng.choice([{"x": "xx"}, {"y": "list_y", "z": ""}])
+    if rng.random() < 0.5:
+        it[rng.choice(["include", "exclude"])] = rng.sample(["x", "y", "z"], rng.randint(1, 2))
+    items = [it]
+    if rng.random() < 0.5:
+        items.append(rng.choice([{"type": "wildcard_placeholders"}, {"type": "value_placeholders"},
+                                 {"type": "field_name_mapping", "mapping": {"f": ["f1", "f2"]}}]))
+    return dets, expr, items
+
+
+def gen_extract_case(rng):
+    pool = ["Dword:00001", "Str:null", "nomatch", "Qw:5", "F:1.5", "Str:None", "Z:0", "Dword:", "B:1e3", "n:abc*", "x:07", "K:-2"]
+    mod = rng.choice(["", "", "", "|all", "|neq", "|contains", "|cased"])
+    vals = [rng.choice(pool) for _ in range(rng.choice([1, 1, 2, 3]))]
+    d = {"reg" + mod: vals if len(vals) > 1 else vals[0], "g": rng.choice([1, "v"])}
+    if rng.random() < 0.2:
+        d["h"] = ["Qw:5", 7]            # a non-string value: left alone
+    dets = {"sel": d if rng.random() < 0.7 else [d, {"reg": "Qw:9"}]}
+    names = list(dets)
+    expr = gen_expr(rng, names, rng.choice([0, 1, 1]))
+    while not selectors_inhabited(expr, names):
+        expr = gen_expr(rng, names, 1)
+    it = {"type": "extract_fields",
+          "regex": rng.choice(["(?P<type>[A-Za-z]+):(?P<val>[0-9a-zA-Z.+-]*)", "(?P<type>[A-Z][a-z]*):(?P<val>[0-9]+)?", "(?P<all>.+:.*[0-9])"])}
+    if rng.random() < 0.6:
+        it["field_prefix"] = rng.choice(["reg", "x", ""])
+    if rng.random() < 0.4:
+        it["preserve_unmatched"] = True
+    if rng.random() < 0.5:
+        it["field_name_conditions"] = [{"type": "include_fields", "fields": ["reg"]}]
+    items = [it]
+    if rng.random() < 0.3:
+        items.append(gen_second(rng, {"detection": dets}, {"field_name_conditions": [{"type": "include_fields", "fields": ["reg.type", "type", "reg"]}]}))
+    return dets, expr, items
+
+
+SPECIAL_GENERATORS = [gen_hashes_case, gen_hashes_case, gen_hashes_case, gen_regex_case, gen_convertnum_case, gen_queryph_case, gen_extract_case]
+
+
 def selectors_inhabited(e, names):
     if e[0] == "sel":
         return e[2] == "them" or any(glob_match(e[2], n) for n in names)
@@ -972,7 +1277,11 @@ def gen_tr(tier, rng):
             rule["fields"] = rng.sample(C_FIELDS + ["other"], rng.randint(1, 3))
         identity = rng.random() < 0.25
         r = rng.random()
-        if rng.random() < 0.3:
+        if rng.random() < 0.22:
+            identity = False
+            dets, expr, items = rng.choice(SPECIAL_GENERATORS)(rng)
+            rule = {"title": "t", "logsource": {"category": "c"}, "detection": dict(dets, condition=spell(expr))}
+        elif rng.random() < 0.3:
             identity = False
             items = gen_dependent_chain(rng, rule)
         elif r < 0.7:
@@ -1030,6 +1339,16 @@ def hostile_cases():
                                                "field_name_conditions": [{"type": "exclude_fields", "fields": ["y"]}]},
                                               {"type": "replace_string", "regex": "$", "replacement": "_post",
                                                "detection_item_conditions": [{"type": "processing_item_applied", "processing_item_id": "M"}]}]),
+        # hashes_fields: the same target field in non-adjacent runs, unknown algorithm, contains, all, negation
+        mk({"sel": {"Hashes": ["MD5=a", "SHA1=b", "MD5=c"]}}, sel,
+           [{"type": "hashes_fields", "valid_hash_algos": ["MD5", "SHA1"], "field_prefix": "File"}]),
+        mk({"sel": {"Hashes|contains": ["MD5=a", "IMPHASH=x", "SHA1=b", "MD5=c", "SHA1=d"], "g": 1}}, ["not", sel],
+           [{"type": "hashes_fields", "valid_hash_algos": ["MD5", "SHA1", "SHA256"], "field_prefix": "File"}]),
+        mk({"sel": {"Hashes|contains|all": ["MD5=a", "SHA1=b", "MD5=c"]}}, sel,
+           [{"type": "hashes_fields", "valid_hash_algos": ["MD5", "SHA1"], "field_prefix": ""}]),
+        mk({"sel": {"Hashes|neq": ["MD5=a", "SHA1=b", "MD5=c"]}}, sel,
+           [{"type": "hashes_fields", "valid_hash_algos": ["MD5", "SHA1"], "field_prefix": "File", "drop_algo_prefix": True}]),
+        mk({"sel": {"reg|neq": "Qw:5"}}, sel, [{"type": "extract_fields", "regex": "(?P<type>[A-Za-z]+):(?P<val>[0-9]+)"}]),
         # marks survive the copies: A marks f and g, f is mapped one-to-many, C applies where A was applied
         mk({"sel": {"f": "foo", "g": "bar"}}, sel, [{"id": "A", "type": "case", "method": "upper"},
                                                     {"id": "B", "type": "field_name_mapping", "mapping": {"f": ["x", "y"]}},
@@ -1213,6 +1532,32 @@ def c_tspec(ts, vars_, plains):
         return "(TReplace %s)" % clist("(%s, %s)" % (cstr(p), cstr(re.sub(ts[1], ts[2], p))) for p in plains)
     if k == "convertstr":
         return "TConvertStr"
+    if k == "regex":
+        return "(TRegex %s)" % {"plain": "RPlain", "ignore_case_flag": "RFlag", "ignore_case_brackets": "RBrackets"}[ts[1]]
+    if k == "convertnum":
+        return "(TConvertNum %s)" % clist("(%s, %s)" % (cstr(p), cstr(py_number(p))) for p in plains if py_number(p) is not None)
+    if k == "queryph":
+        return "(TQueryPh %s %s %s)" % (c_phsel(ts[1], ts[2]), cstr(ts[3]), clist("(%s, %s)" % (cstr(a), cstr(b)) for a, b in ts[4].items()))
+    if k == "hashes":
+        return "(THashes (mkH %s %s %s %s))" % (clist(cstr(x) for x in ts[1]), cstr(ts[2]), cbool(ts[3]), clist(cstr(x) for x in ts[4]))
+    if k == "extract":
+        rx = re.compile(ts[1])
+        tbl, nums = [], {}
+        for p in plains:
+            m = rx.match(p)
+            if not m:
+                tbl.append("(%s, None)" % cstr(p))
+                continue
+            gs = []
+            for g, gv in m.groupdict().items():
+                gs.append("(%s, %s)" % (cstr(g), copt(None if gv is None else cstr(gv))))
+                if gv:
+                    n = py_capture_number(gv)
+                    if n is not None:
+                        nums[gv] = n
+            tbl.append("(%s, Some %s)" % (cstr(p), clist(gs)))
+        return "(TExtract (mkX %s %s %s %s))" % (copt(None if ts[2] is None else cstr(ts[2])), cbool(ts[3]), clist(tbl),
+                                                 clist("(%s, %s)" % (cstr(a), cstr(b)) for a, b in nums.items()))
     if k == "wildph":
         return "(TWildPh %s)" % c_phsel(ts[1], ts[2])
     if k == "valueph":
@@ -1259,6 +1604,10 @@ def c_query(q, other, ids):
             out.append("(TOp %s)" % {"and": "OAnd", "or": "OOr", "not": "ONot"}[t[1]])
         else:
             d = decode_atom(t[1])
+            mq = re.fullmatch(r'«(\w+)="qx-([0-9a-f]+)"»', t[1])
+            if mq:      # marker of a query expression entry of the hand-rewritten document (spell_atom)
+                f, ex, qid = json.loads(bytes.fromhex(mq.group(2)).decode())
+                d = ("atom", ("text", ex.format(field=f, id=qid)), False)
             if d is None or d[0] != "atom":
                 # atoms the C01 reader does not know (e.g. query expressions): identity by text
                 d = ("atom", ("text", t[1]), False)
@@ -1339,6 +1688,8 @@ def known_tr(case, r):
                     if afn is not None and it["f"] is None and fm(conds, None) and afn(None) is not None \
                             and any(v[0] == "num" for v in it["vs"]):
                         return "D28-keyword-number-mapped-to-field-exact-match"
+                    if ts[0] == "extract" and it["neg"] and rw_extract(ts, it)[1]:
+                        return "D34-extract-fields-drops-negation"
                     if ts[0] == "replace":
                         for v in it["vs"]:
                             if v[0] == "num" and re.sub(ts[1], ts[2], v[1]) == v[1]:
